@@ -330,7 +330,8 @@ impl MqttState {
             if let Some(topic) = self.topic_alises.get(&alias) {
                 topic.clone_into(&mut publish.topic);
             } else {
-                self.handle_protocol_error()?;
+                // the DISCONNECT has to reach the caller, which writes it to the network
+                return self.handle_protocol_error();
             };
         }
 
